@@ -403,19 +403,20 @@ func (dir fileSystem) List() (keys []uint, err error) {
 		return nil, err
 	}
 	defer f.Close()
-	names, err := f.Readdirnames(0)
+	entries, err := f.ReadDir(0)
 	if err != nil {
 		return nil, err
 	}
 
-	keys = make([]uint, 0, len(names))
-	for _, name := range names {
-		if len(name) != 5 {
-			continue
+	keys = make([]uint, 0, len(entries))
+	for _, entry := range entries {
+		name := entry.Name()
+		if len(name) != 5 || !entry.Type().IsRegular() {
+			continue // not from Save
 		}
 		u, err := strconv.ParseUint(name, 16, 17)
-		if err != nil {
-			continue
+		if err != nil || dir.file(uint(u)) != string(dir)+name {
+			continue // not in the spelling of Save, e.g. upper case
 		}
 		keys = append(keys, uint(u))
 	}
